@@ -546,8 +546,43 @@ func c19(r *core.Run) {
 		}}
 		want := core.ParsePoly("len(files) - mb")
 		mbPos := core.Cmp(token.GTR, core.FieldLoad("SizeLimitRotateRule.maxBackups"), core.IsConstInt(0))
-		tooMany := core.AnyOf(core.Cmp(token.GTR, core.IsLenOf(isFiles), core.FieldLoad("SizeLimitRotateRule.maxBackups")),
-			core.Cmp(token.GEQ, core.IsLenOf(isFiles), core.FieldLoad("SizeLimitRotateRule.maxBackups")))
+		tooMany := core.CmpPoly(a, want, true) // len(files) − maxBackups > 0 in any spelling (≥ accepted as before)
+		// an index that runs over the outdated prefix: φ(0, φ+1) tested against len(files) − maxBackups
+		isPrefixIndex := func(v ssa.Value) bool {
+			phi, ok := v.(*ssa.Phi)
+			if !ok || phi.Referrers() == nil {
+				return false
+			}
+			for _, e := range phi.Edges {
+				if c, isC := core.ConstInt(e); isC && c == 0 {
+					continue
+				}
+				if b, isB := e.(*ssa.BinOp); isB && b.Op == token.ADD && b.X == ssa.Value(phi) {
+					if one, isOne := core.ConstInt(b.Y); isOne && one == 1 {
+						continue
+					}
+				}
+				return false
+			}
+			for _, ref := range *phi.Referrers() {
+				b, ok := ref.(*ssa.BinOp)
+				if !ok {
+					continue
+				}
+				if (b.Op == token.LSS && b.X == ssa.Value(phi) && a.Norm(b.Y).Equal(want)) || (b.Op == token.GTR && b.Y == ssa.Value(phi) && a.Norm(b.X).Equal(want)) {
+					return true
+				}
+			}
+			return false
+		}
+		fromPrefixLoop := func(key ssa.Value) bool {
+			u, ok := core.Strip(core.Forward(key)).(*ssa.UnOp)
+			if !ok || u.Op != token.MUL {
+				return false
+			}
+			ia, ok := u.X.(*ssa.IndexAddr)
+			return ok && core.DependsOn(ia.X, isFiles) && isPrefixIndex(ia.Index)
+		}
 		prefix, suffix := 0, 0
 		for _, in := range slices {
 			s := in.(*ssa.Slice)
@@ -573,9 +608,7 @@ func c19(r *core.Run) {
 				o.Fail(p.InstrPos(in), "backups are cut although there are not more than maxBackups (negative slice bound)")
 			}
 		}
-		if prefix == 0 {
-			o.Fail(p.Pos(f.Pos()), "no prefix files[:len−maxBackups] is marked outdated")
-		}
+		prefixLoops := 0
 		// what is marked outdated
 		marks := core.Instrs(f, func(in ssa.Instruction) bool {
 			mu, ok := in.(*ssa.MapUpdate)
@@ -598,6 +631,16 @@ func c19(r *core.Run) {
 			if fromPrefix {
 				continue
 			}
+			if fromPrefixLoop(mu.Key) {
+				prefixLoops++
+				if w := core.Requires(f, core.Is(in), mbPos); w != nil {
+					o.Fail(p.InstrPos(in), "backups are cut to maxBackups although maxBackups ≤ 0 (unlimited)")
+				}
+				if w := core.Requires(f, core.Is(in), tooMany); w != nil {
+					o.Fail(p.InstrPos(in), "backups are cut although there are not more than maxBackups")
+				}
+				continue
+			}
 			if !core.DependsOn(mu.Key, isFiles) {
 				o.Fail(p.InstrPos(in), "a name that is not one of the matched backups is marked outdated")
 			}
@@ -610,6 +653,9 @@ func c19(r *core.Run) {
 		}
 		if len(marks) == 0 {
 			o.Fail(p.Pos(f.Pos()), "nothing is ever marked outdated")
+		}
+		if prefix == 0 && prefixLoops == 0 {
+			o.Fail(p.Pos(f.Pos()), "no prefix files[:len−maxBackups] is marked outdated")
 		}
 	})
 
